@@ -251,6 +251,33 @@ type Twin struct {
 	Flag  bool
 }
 `},
+		// p12: legal but unusual column names (a dot, a space, non-ASCII, upper case, a comma)
+		{Name: "p12", Type: "OddNames", Code: `
+type Ab struct {
+	B int32  ` + "`parquet:\"b\"`" + `
+	C string ` + "`parquet:\"c d\"`" + `
+}
+
+type OddNames struct {
+	Dotted  int64   ` + "`parquet:\"x.y\"`" + `
+	A       Ab      ` + "`parquet:\"a\"`" + `
+	Unicode *string ` + "`parquet:\"naïve-列\"`" + `
+	Upper   bool    ` + "`parquet:\"UPPER\"`" + `
+	Other   []int32 ` + "`parquet:\"other,x\"`" + `
+}
+`},
+		// p13: a column NAMED "a.b" next to a group a with a child b — the two paths differ
+		// ([a.b] vs [a, b]) but the library keys columns by the dot-joined path (known finding)
+		{Name: "p13", Type: "DotClash", Meta: map[string]string{"collapse_kinds": "1"}, Code: `
+type Ab struct {
+	B int32 ` + "`parquet:\"b\"`" + `
+}
+
+type DotClash struct {
+	Dotted int64 ` + "`parquet:\"a.b\"`" + `
+	A      Ab    ` + "`parquet:\"a\"`" + `
+}
+`},
 		{Name: "p8", Type: "Wide", Code: `
 type Wide struct {
 	S1 string
